@@ -295,7 +295,10 @@ def run(cx):
             for axis in X.AXES_GEN:
                 mod, name = rng.choice(names)
                 for test in (X.STAR, X.NODE, ("n", mod if rng.random() < 0.5 or name in X.CONFLICT else None, name), ("m", rng.choice([X.A, X.B]))):
-                    for preds in ([], [X.num(1)], [X.fn("last")], [X.num(2)], [X.bop("gt", X.fn("position"), X.num(1))]):
+                    # (a number-valued predicate need not be constant over the node set: [position()] keeps every node)
+                    for preds in ([], [X.num(1)], [X.fn("last")], [X.num(2)], [X.bop("gt", X.fn("position"), X.num(1))], [X.fn("position")],
+                                  [X.bop("add", X.bop("sub", X.fn("position"), X.num(1)), X.num(1))],
+                                  [X.bop("sub", X.fn("last"), X.bop("sub", X.fn("last"), X.fn("position")))], [X.fn("position"), X.num(2)]):
                         if preds and rng.random() < 0.5: continue
                         steps = [X.st(test, axis, preds)]
                         if rng.random() < 0.3:
